@@ -195,8 +195,11 @@ func runDraw(c DrawCase) error {
 	// fallback tables: a new version per Register/Unregister. A cell that is not
 	// repainted keeps the bytes it was painted with, so per cell the versions in
 	// force at the Shows since its content last changed are acceptable (okFb).
+	// every screen starts from the package's default table as it was before any
+	// screen existed (a screen's own Register/Unregister calls must not leak
+	// into it, i.e. into later screens)
 	fb := map[rune]string{}
-	for k, v := range tcell.RuneFallbacks {
+	for k, v := range initialFallbacks {
 		fb[k] = v
 	}
 	fbVers := []map[rune]string{fb}
@@ -242,7 +245,9 @@ func runDraw(c DrawCase) error {
 		}
 	}
 
+	pending := 0
 	drain := func() {
+		pending = 0
 		for s.HasPendingEvent() {
 			ev := s.PollEvent()
 			if r, ok := ev.(*tcell.EventResize); ok {
@@ -254,7 +259,27 @@ func runDraw(c DrawCase) error {
 	setSize := func(step int, w, h int) error {
 		before, bw, bh := s.GetContents()
 		before = cloneCells(before)
-		s.SetSize(w, h)
+		// with the event queue full SetSize waits for room for its resize event:
+		// the application keeps polling meanwhile
+		done := make(chan struct{})
+		go func() { s.SetSize(w, h); close(done) }()
+		guard := pbt.After(10 * time.Second)
+		select { // the application is slow to poll: SetSize meets the queue as it is
+		case <-done:
+		case <-time.After(3 * time.Millisecond):
+		}
+	wait:
+		for {
+			select {
+			case <-done:
+				break wait
+			case <-guard:
+				return fmt.Errorf("step %d: SetSize(%d,%d) did not return within 10s although the application was polling (%d events were pending)", step, w, h, pending)
+			default:
+				drain()
+				time.Sleep(20 * time.Microsecond)
+			}
+		}
 		after, aw, ah := s.GetContents()
 		if aw != w || ah != h || len(after) != w*h {
 			return fmt.Errorf("step %d: after SetSize(%d,%d) GetContents reports %dx%d with %d cells", step, w, h, aw, ah, len(after))
@@ -448,6 +473,13 @@ func runDraw(c DrawCase) error {
 		case "lock":
 			s.LockRegion(op.X, op.Y, op.W, op.H, op.On)
 			sh.Lock(op.X, op.Y, op.W, op.H, op.On)
+		case "injectkeys":
+			// unpolled input: up to the queue's capacity of 10 events
+			for k := 0; k < op.W && pending < 10; k++ {
+				s.InjectKey(tcell.KeyRune, 'k', tcell.ModNone)
+				pending++
+			}
+			continue // left unpolled for the next call to meet
 		case "regfb":
 			s.RegisterRuneFallback(op.R, op.Subst)
 			setFb(op.R, op.Subst, false)
@@ -473,8 +505,25 @@ func runDraw(c DrawCase) error {
 		}
 		drain()
 	}
+	if len(tcell.RuneFallbacks) != len(initialFallbacks) {
+		return fmt.Errorf("the package-level RuneFallbacks table has %d entries after this history, it had %d before any screen existed: a screen's Register/UnregisterRuneFallback leaked into it", len(tcell.RuneFallbacks), len(initialFallbacks))
+	}
+	for k, v := range initialFallbacks {
+		if tcell.RuneFallbacks[k] != v {
+			return fmt.Errorf("the package-level RuneFallbacks entry for %q is %q after this history, it was %q before any screen existed", k, tcell.RuneFallbacks[k], v)
+		}
+	}
 	return firstKnown
 }
+
+// initialFallbacks: the default table, copied before any screen is created.
+var initialFallbacks = func() map[rune]string {
+	m := map[rune]string{}
+	for k, v := range tcell.RuneFallbacks {
+		m[k] = v
+	}
+	return m
+}()
 
 // ---- generator
 
@@ -535,6 +584,9 @@ func genDraw(t *rapid.T) DrawCase {
 		case k == 21:
 			op = Op{Kind: "sync"}
 		case k <= 23:
+			if rapid.IntRange(0, 3).Draw(t, "unpolled") == 0 {
+				c.Ops = append(c.Ops, Op{Kind: "injectkeys", W: rapid.SampledFrom([]int{1, 9, 10, 10, 10}).Draw(t, "nkeys")})
+			}
 			op = Op{Kind: "setsize", W: rapid.IntRange(1, 10).Draw(t, "nw"), H: rapid.IntRange(1, 5).Draw(t, "nh")}
 			w, h = op.W, op.H
 		case k == 24:
@@ -659,7 +711,7 @@ func drawClasses(c DrawCase) []string {
 		case "setsize":
 			add("setsize")
 			w = op.W
-		case "sync", "fill", "clear", "lock", "setstyle", "cursor", "regfb", "unregfb":
+		case "sync", "fill", "clear", "lock", "setstyle", "cursor", "regfb", "unregfb", "injectkeys":
 			add(op.Kind)
 		}
 	}
